@@ -34,7 +34,7 @@ where
     }
 
     pub fn clear(&mut self) {
-        self.root_mut().take();
+        drop_tree(self.root_mut().take());
         self.size = 0;
     }
 
@@ -389,6 +389,30 @@ impl<K, V> DoubleEndedIterator for IntoIter<K, V> {
 }
 
 impl<K, V> ExactSizeIterator for IntoIter<K, V> {}
+
+impl<K, V> Drop for IntoIter<K, V> {
+    fn drop(&mut self) {
+        drop_tree(self.cur.take());
+    }
+}
+
+/// Frees a whole tree without recursion: the default drop glue of the boxed nodes recurses
+/// once per tree level, which overflows the stack for the linear chains that monotone
+/// insertion produces. Left children are rotated up until the current node has none; it can
+/// then be freed on its own.
+fn drop_tree<K, V>(root: Option<Box<Node<K, V>>>) {
+    let mut cur = root;
+    while let Some(mut node) = cur {
+        cur = match node.pop_left() {
+            Some(mut left) => {
+                node.left = left.pop_right();
+                left.right = Some(node);
+                Some(left)
+            }
+            None => node.pop_right(),
+        };
+    }
+}
 
 /// Performs a top-down splay operation on a tree rooted at `node`. This will
 /// modify the pointer to contain the new root of the tree once the splay
